@@ -328,6 +328,19 @@ def _digest_main(r, main, text, spans, fns):
                 oid = s.clause or '%s/%s/safety' % (r.name, s.fn)
                 break
         if oid is None:
+            # a postcondition declared on a TRAIT method in the template and violated by an extracted impl:
+            # the primary span is the trait's clause, a secondary span is the impl body
+            for s2 in d.get('spans', []):
+                if os.path.basename(s2.get('file_name', '')) != os.path.basename(main['path']) or s2 is sp:
+                    continue
+                off2 = _offset(text, s2['line_start'], s2['column_start'])
+                for (a, b, sg) in spans:
+                    if a <= off2 < b and sg.fn:
+                        oid = '%s/%s/safety' % (r.name, sg.fn)
+                        break
+                if oid:
+                    break
+        if oid is None:
             host = next((f for f in fns if f['start'] <= off < f['end']), None)
             if host is None:
                 hard.append('unattributed failure: ' + msg)
